@@ -959,6 +959,41 @@ func (c *OpenChannel) AdvanceCommitChainTail(fwdPkg *FwdPkg,
 	)
 }
 
+// AdvanceCommitChainTailWithRevocation stores the revocation secret the remote
+// party just released, rotates the remote commitment points (next becomes
+// current, nextRevocation becomes next) and then advances the remote commitment
+// chain on disk as AdvanceCommitChainTail does. The in-memory revocation state
+// is only changed with the channel mutex held for the whole step, so that a
+// concurrent Refresh of this channel can't replace it with the copy on disk
+// between the change and the write that persists it.
+func (c *OpenChannel) AdvanceCommitChainTailWithRevocation(
+	revocation *chainhash.Hash, nextRevocation *btcec.PublicKey,
+	fwdPkg *FwdPkg, updates []LogUpdate, ourOutputIndex,
+	theirOutputIndex uint32) error {
+
+	c.Lock()
+	defer c.Unlock()
+
+	// If this is a restored channel, then we want to avoid mutating the
+	// state at all, as it's impossible to do so in a protocol compliant
+	// manner.
+	if c.hasChanStatus(ChanStatusRestored) {
+		return ErrNoRestoredChannelMutation
+	}
+
+	// Ensure that the new pre-image can be placed in preimage store.
+	if err := c.RevocationStore.AddNextEntry(revocation); err != nil {
+		return err
+	}
+
+	c.RemoteCurrentRevocation = c.RemoteNextRevocation
+	c.RemoteNextRevocation = nextRevocation
+
+	return c.Db.AdvanceCommitChainTail(
+		c, fwdPkg, updates, ourOutputIndex, theirOutputIndex,
+	)
+}
+
 // NextLocalHtlcIndex returns the next unallocated local htlc index. To ensure
 // this always returns the next index that has been not been allocated, this
 // will first try to examine any pending commitments, before falling back to the
